@@ -82,6 +82,9 @@ def gen(rng, k=None):
     return s, desc, (set(np.flatnonzero(~top).tolist()), set(np.flatnonzero(top).tolist())), None
 
 
+ADAPTIVE = []
+
+
 def sample_stacks(ctx, target, directed=False):
     """the property on members of the family; `directed`: periodic stacking direction and rattled atoms only (the situations in
     which the prototype-cell search has to look into neighbouring periodic images) — used when a proof/correspondence is broken"""
@@ -123,8 +126,10 @@ def sample_stacks(ctx, target, directed=False):
         desc.update({"noise": noise, "seed": seed})
         done += 1
         try:
-            with SC.FinderRecorder() as rec:
+            with SC.FinderRecorder() as rec, SC.ProtoRecorder() as prec:
                 clusters = SBC().get_clusters(a, seed=seed)
+            if len(ADAPTIVE) < 500:
+                ADAPTIVE.extend(prec.adaptive[:40])
             dims = [c.get_dimensionality() for c in clusters]
         except Exception as e:  # noqa
             bad.append({"desc": desc, "complaint": "exception %s: %s" % (type(e).__name__, str(e)[:150]), "atoms": crystals.atoms_to_json(a)})
@@ -156,13 +161,13 @@ def run(ctx):
         ctx.finding("stack:%s/%s:%s" % (b["desc"]["bottom"], b["desc"]["top"], b["desc"]["facet"]), "%s on %s %s: %s" % (b["desc"]["top"], b["desc"]["bottom"], b["desc"]["facet"], b["complaint"]),
                     {"kind": "failing-input", "case": b, "how": "SBC().get_clusters(atoms, seed=seed) with default parameters"})
     import finder_helpers
-    finder_helpers.check(ctx, broken)
+    finder_helpers.check(ctx, broken, ADAPTIVE)
     if broken and not bad:
         bad, f2, f3 = sample_stacks(ctx, ctx.n(60, 300), directed=True)
         for b in bad[:5]:
             ctx.finding("stack:%s/%s:%s" % (b["desc"]["bottom"], b["desc"]["top"], b["desc"]["facet"]), "%s on %s %s (directed): %s" % (b["desc"]["top"], b["desc"]["bottom"], b["desc"]["facet"], b["complaint"]),
                         {"kind": "failing-input", "case": b, "how": "SBC().get_clusters(atoms, seed=seed) with default parameters"})
-    if broken and not ctx.findings:
+    if broken and not ctx.unknown_findings():
         ctx.finding("unproved", "conditional theorem no longer checks, no failing stack found", {"kind": "broken-obligation", "broken": broken}, found_input=False)
     ctx.coverage["broken"] = [{"what": k_, "info": i} for k_, i in broken]
     return common.finish(ctx, "other", "commensurate two-metal stacks passing the independent precondition (distinct = distinct (pair, facet, layers, repeat, pbc, noise, seed))",
